@@ -463,6 +463,11 @@ func runSweepJob(r *ev.Run, j sweepJob, envs []*envrig.Env, clients []client, ep
 		framings := sweepFramings[:1]
 		if framed {
 			framings = sweepFramings
+			if !strings.HasPrefix(rv.name, "column:") {
+				// direct scanner/detector calls: alone plus one kind of surroundings, rotating with every pass of the
+				// low length byte through its 256 values (the column pipeline above them gets all kinds at every length)
+				framings = []string{"alone", sweepFramings[1+(j.n/256+j.epIdx)%3]}
+			}
 		}
 		for _, fr := range framings {
 			c := &caseCtx{}
@@ -476,8 +481,12 @@ func runSweepJob(r *ev.Run, j sweepJob, envs []*envrig.Env, clients []client, ep
 				} else if bytes.Equal(got, y) {
 					state = "left-protected"
 				}
-				r.Violation(fmt.Sprintf("length sweep: round trip broken: ep=%s reveal=%s framing=%s result=%s %s", ep.name, rv.name, fr, state, sigTail),
-					detail(map[string]interface{}{"y": ev.FullHex(y), "pre": ev.FullHex(c.pre), "suf": ev.FullHex(c.suf), "got": ev.Hex(got), "err": fmt.Sprint(err), "length_fields": fmt.Sprint(fields)}))
+				where := "alone"
+				if fr != "alone" {
+					where = "surrounded"
+				}
+				r.Violation(fmt.Sprintf("length sweep: round trip broken: ep=%s reveal=%s value=%s result=%s %s", ep.name, rv.name, where, state, sigTail),
+					detail(map[string]interface{}{"framing": fr, "y": ev.FullHex(y), "pre": ev.FullHex(c.pre), "suf": ev.FullHex(c.suf), "got": ev.Hex(got), "err": fmt.Sprint(err), "length_fields": fmt.Sprint(fields)}))
 				continue
 			}
 			r.Count("lensweep_reveals_ok", 1)
